@@ -25,11 +25,16 @@ import (
 
 var k3nodeSeq int32
 
-func startQuietNode(prefix string) (gen.Node, error) {
+func startQuietNode(prefix string) (gen.Node, error) { return startQuietNodeOpts(prefix, nil) }
+
+func startQuietNodeOpts(prefix string, mod func(*gen.NodeOptions)) (gen.Node, error) {
 	opts := gen.NodeOptions{}
 	opts.Network.Mode = gen.NetworkModeDisabled
 	opts.Log.Level = gen.LogLevelDisabled
 	opts.Log.DefaultLogger.Disable = true
+	if mod != nil {
+		mod(&opts)
+	}
 	name := fmt.Sprintf("%s%d@localhost", prefix, atomic.AddInt32(&k3nodeSeq, 1))
 	return ergo.StartNode(gen.Atom(name), opts)
 }
